@@ -13,18 +13,34 @@ ALL = ["C%02d" % i for i in range(1, 20)]
 
 
 def setup():
+    """Translate and build everything the *claimed* checks (claimed.json) depend on; full .vo build of that closure."""
+    import subprocess
     import translate
+    claimed = json.load(open(os.path.join(C.ROOT, "claimed.json")))
+    files = []
+    for pid in claimed:
+        mod = importlib.import_module("props." + pid.lower())
+        files += list(mod.PROP_FILES) + list(mod.RUN_FILES)
     with C.Lock():
         done, aborts = translate.run()
         C._ensure_makefile()
-    import subprocess
-    p = subprocess.run(["make", "-f", "Makefile.coq", f"-j{C.NPROC}"], cwd=C.COQ)
-    if aborts or p.returncode != 0:
-        print("setup: build failed")
+        closure = C.dep_closure(files)
+        targets = sorted(f[:-2] + ".vo" for f in closure if os.path.exists(os.path.join(C.COQ, f)))
+        p = subprocess.run(["make", "-f", "Makefile.coq", f"-j{C.NPROC}"] + targets, cwd=C.COQ)
+    relevant = []
+    for g, msg in aborts:
+        import re
+        m = re.search(r"\[(.*)\]$", g)
+        outs = m.group(1).split(",") if m else ["?"]
+        if "?" in outs or any(("Gen/" + o) in closure for o in outs):
+            relevant.append((g, msg))
+    if relevant or p.returncode != 0:
+        print("setup: build failed", relevant)
         return 1
-    hits = C.gate_scan()
+    hits = C.gate_scan(only=closure)
     for h in hits:
         print("gate:", h)
+    print(f"setup: built {len(targets)} Coq files for {len(claimed)} claimed checks")
     return 1 if hits else 0
 
 
